@@ -166,6 +166,9 @@ ReestPointRule == (Good /\ Last.a = "SendReest" /\ Last.err = "") =>
 \* C06 part A on the channel: after the k-th revoke_and_ack was accepted, ANY handle on the channel (here one
 \* fetched from the database before the history, never updated since) reproduces exactly the k secrets
 \* received - the remote chain's tail height is the number of states the peer has revoked
+\* C06: a secret that is not the next one of the peer's chain is refused (rej = 1: ReceiveRevocation returned an
+\* error); that nothing changed is judged by the Conform* invariants of the same line
+BadRevRefused == (Good /\ Last.a = "RecvBadRev") => Last.rej = 1
 StaleSecretsRule == (Good /\ Last.a = "RecvRev" /\ Last.rsk # -1) => Last.rsk = Last.st[Last.p].RC[1].h
 
 TInit == Init /\ opener = "A" /\ l = 1 /\ ctx = [type |-> "tweakless", dust |-> [A |-> 0, B |-> 0], thaw |-> 0]
@@ -217,6 +220,7 @@ TStep ==
   \/ AddRejected
   \/ Is("StaleTouch") /\ UNCHANGED vars
   \/ Is("LiveRefresh") /\ LiveRefresh(P)
+  \/ Is("RecvBadRev") /\ RecvBadRev(P)
 TNext == \/ TStep /\ UNCHANGED ctx
          \/ Reset
          \/ (l = Len(Trace) + 1 /\ UNCHANGED <<vars, l, ctx>>)
